@@ -1,5 +1,6 @@
 """C10 — exclude_xpaths, compare_only and transform only narrow or map what is compared."""
 import copy
+import json
 import itertools
 
 from n0v import coqlit as L
@@ -179,6 +180,43 @@ class C10(Prop):
                     i["ck"] = ck
                 i.update(copy.deepcopy(opt))
                 out.append({"stream": "cmp", "tag": "opt:" + "+".join(sorted(opt)) + ":" + walk, "input": i})
+        # ---- systematic slices (not left to chance) -----------------------------------------------------------------
+        twins = [(1, "1"), (2, "2"), (1.5, "1.5"), (None, "None"), (True, "True"), ("7", 7)]
+        for _ in range(40 if quick else 1500):
+            # a scalar list whose items pair under str() although they differ; only the transform makes every pair equal
+            if rng.random() < 0.4:
+                items = [rng.choice(twins) for _ in range(rng.randint(2, 4))]
+                fn = rng.choice([["cs", "ab"], ["ci", 0]])
+            else:
+                # numbers as numbers on one side and as text on the other (they pair: same str()); equal as numbers
+                items = rng.sample([(1, "1"), (2.5, "2.5"), (3, "3"), ("4", 4), (0.5, "0.5"), (7, 7)], rng.randint(2, 4))
+                fn = ["num"]
+            xs, ys = [x for x, _ in items], [y for _, y in items]
+            key = rng.choice(["TL", "prices"])
+            a, b = {"a": 1, key: xs}, {"a": 1, key: ys}
+            if rng.random() < 0.5:
+                a, b = {"w": a}, {"w": b}
+            tr = [[rng.choice(["//" + key, "//" + key.lower(), key]), fn]]
+            # further entries that match nothing here (before and after): which entry is applied must not depend on the item
+            for _ in range(rng.randint(0, 2)):
+                tr.insert(rng.randint(0, len(tr)), [rng.choice(["//zz", "/a/zz", "qq"]), rng.choice([["id"], ["cs", "zz"], ["round"]])])
+            for walk in ("compare", "direct"):
+                out.append({"stream": "cmp", "tag": "sys:twins:" + walk, "input": {"a": a, "b": b, "walk": walk, "setters": [], "tr": copy.deepcopy(tr)}})
+        for _ in range(40 if quick else 1500):
+            # several keys that exist on one side only, an excluded / not requested one directly before a reportable one
+            ks = rng.sample(["k1", "k2", "k3", "k4", "k5"], rng.randint(2, 4))
+            common = {"z": 1, "y": "x"}
+            only_side = dict(common)
+            for k in ks:
+                only_side[k] = CC.gen_leaf(rng)
+            if rng.random() < 0.5:
+                items = list(only_side.items()); rng.shuffle(items); only_side = dict(items)
+            a, b = (only_side, dict(common)) if rng.random() < 0.5 else (dict(common), only_side)
+            opt = {"excl": ["//" + rng.choice(ks)]} if rng.random() < 0.5 else {"only": ["//" + k for k in rng.sample(ks, rng.randint(1, len(ks) - 1))]}
+            for walk in ("compare", "direct"):
+                i = {"a": a, "b": b, "walk": walk, "setters": []}
+                i.update(copy.deepcopy(opt))
+                out.append({"stream": "cmp", "tag": "sys:one-sided:" + walk, "input": i})
         return out
 
     def valid(self, case):
@@ -302,12 +340,33 @@ class C10(Prop):
         i = case["input"]
         if case.get("stream") != "cmp" or i.get("walk") != "compare" or not i.get("tr"):
             return False
-        for t in (i["a"], i["b"]):
+        blists = dict(list_paths(i["b"]))
+        alists = dict(list_paths(i["a"]))
+        for t, others in ((i["a"], blists), (i["b"], alists)):
             for path, l in list_paths(t):
                 l2 = tr_list(l, path, i["tr"])
-                for x, x2 in zip(l, l2):
-                    if not isinstance(x, dict) and L.canon(x) != L.canon(x2):
-                        return True
+                if not any(not isinstance(x, dict) and L.canon(x) != L.canon(x2) for x, x2 in zip(l, l2)):
+                    continue
+                # the finding is about the pairing: it applies when pairing the items by str() of the untransformed items
+                # differs from pairing them by their transformed values (numbers against the same numbers as text pair
+                # alike both ways: a failure there is not this finding)
+                o = others.get(path)
+                if o is None or any(isinstance(x, (dict, list)) for x in l + o):
+                    return True
+                o2 = tr_list(o, path, i["tr"])
+
+                def pairing(ka, kb):
+                    used, out = set(), []
+                    for n, k in enumerate(ka):
+                        for m, k2 in enumerate(kb):
+                            if m not in used and k2 == k:
+                                used.add(m)
+                                out.append((n, m))
+                                break
+                    return out
+                if pairing([str(x) for x in l], [str(x) for x in o]) != pairing([json.dumps(L.canon(x)) for x in l2],
+                                                                               [json.dumps(L.canon(x)) for x in o2]):
+                    return True
         return False
 
     @staticmethod
